@@ -3,7 +3,10 @@ package checks
 import (
 	"bytes"
 	"fmt"
+	"os"
+	"runtime/debug"
 	"sort"
+	"strings"
 	"sync"
 
 	"github.com/syndtr/goleveldb/leveldb"
@@ -329,6 +332,9 @@ func NewRunner(p *Prog) *Runner {
 
 func (r *Runner) fail(sig, msg string, at int) {
 	if !r.Failed {
+		if debugEvents {
+			fmt.Fprintf(os.Stderr, "FAIL %s %s\n", sig, msg)
+		}
 		r.Failed = true
 		r.FailSig = sig
 		if r.Fail != nil {
@@ -343,10 +349,45 @@ var sinkMu sync.Mutex
 func (r *Runner) InstallSink() {
 	leveldb.VerifSink = func(point string, args []interface{}) {
 		ev := Event{point, args}
+		if debugEvents {
+			fmt.Fprintf(os.Stderr, "EV %s %s\n", point, evBrief(args))
+			if point == "v.install" || point == "m.drop" || point == "m.rotate" {
+				fmt.Fprintf(os.Stderr, "STACK %s\n", briefStack())
+			}
+		}
 		if r.OnEvent != nil {
 			r.OnEvent(ev)
 		}
 	}
+}
+
+var debugEvents = os.Getenv("VERIF_DEBUG_EVENTS") != ""
+
+func briefStack() string {
+	var fr []string
+	for _, l := range strings.Split(string(debug.Stack()), "\n") {
+		if strings.HasPrefix(l, "github.com/syndtr/goleveldb/leveldb.") {
+			l = strings.TrimPrefix(l, "github.com/syndtr/goleveldb/leveldb.")
+			if i := strings.Index(l, "(0x"); i > 0 {
+				l = l[:i]
+			}
+			fr = append(fr, l)
+		}
+	}
+	return strings.Join(fr, " < ")
+}
+
+func evBrief(args []interface{}) string {
+	out := ""
+	for _, a := range args {
+		switch x := a.(type) {
+		case int, int64, uint64, bool, string, uint32:
+			out += fmt.Sprintf(" %v", x)
+		default:
+			out += fmt.Sprintf(" <%T>", a)
+		}
+	}
+	return out
 }
 
 func UninstallSink() { leveldb.VerifSink = nil; leveldb.VerifYield = nil }
@@ -479,6 +520,10 @@ func (r *Runner) releaseHandles() {
 
 // Run executes the program; it returns after the first failure.
 func (r *Runner) Run() {
+	if debugEvents && leveldb.VerifSink == nil {
+		r.InstallSink()
+		defer UninstallSink()
+	}
 	if err := r.open(); err != nil {
 		r.fail("open:error", fmt.Sprintf("initial open: %v", err), -1)
 		return
@@ -495,6 +540,9 @@ func (r *Runner) Run() {
 			return
 		}
 		r.Stats[op.Op]++
+		if debugEvents {
+			fmt.Fprintf(os.Stderr, "OP %d %s\n", at, op.Op)
+		}
 		mutating := false
 		switch op.Op {
 		case "put":
@@ -883,9 +931,56 @@ func (r *Runner) tableEntries(t leveldb.VerifTable) ([]leveldb.VerifEntry, error
 	}
 	es, err := leveldb.VerifTableEntries(r.DB, t)
 	if err == nil {
+		// the entries served through the DB's table cache must be those of the file on storage
+		// (decoded independently of the DB, without caches or buffer pool)
+		fd := storage.FileDesc{Type: storage.TypeTable, Num: t.Num}
+		if b, ok := r.St.FileBytes(fd); ok && int64(len(b)) == t.Size {
+			if ref, rerr := crReadTable(b, fd, r.O, true); rerr == nil && !sameEntries(ref, es) {
+				r.fail("table-cache:wrong-contents", fmt.Sprintf("table %d (size %d, [%x,%x]): the DB's table cache served %d entries (first %x), the file holds %d (first %x)",
+					t.Num, t.Size, t.Imin, t.Imax, len(es), firstIKey(es), len(ref), firstIKey(ref)), -1)
+				return ref, nil
+			}
+		}
 		r.tableCache[id] = es
 	}
 	return es, err
+}
+
+func seqRange(mem, frozen []leveldb.VerifEntry) string {
+	f := func(es []leveldb.VerifEntry) string {
+		if len(es) == 0 {
+			return "-"
+		}
+		lo, hi := seqOf(es[0].IKey), seqOf(es[0].IKey)
+		for _, e := range es {
+			if q := seqOf(e.IKey); q < lo {
+				lo = q
+			} else if q > hi {
+				hi = q
+			}
+		}
+		return fmt.Sprintf("%d..%d", lo, hi)
+	}
+	return fmt.Sprintf(", mem seqs %s, frozen seqs %s", f(mem), f(frozen))
+}
+
+func sameEntries(a, b []leveldb.VerifEntry) bool {
+	if len(a) != len(b) {
+		return false
+	}
+	for i := range a {
+		if !bytes.Equal(a[i].IKey, b[i].IKey) || !bytes.Equal(a[i].Value, b[i].Value) {
+			return false
+		}
+	}
+	return true
+}
+
+func firstIKey(es []leveldb.VerifEntry) []byte {
+	if len(es) == 0 {
+		return nil
+	}
+	return es[0].IKey
 }
 
 func ukeyOf(ik []byte) []byte { return ik[:len(ik)-8] }
@@ -901,6 +996,9 @@ func (r *Runner) checkStructure(at int) {
 	st := leveldb.VerifDump(r.DB)
 	if st.Version == nil {
 		return
+	}
+	if debugEvents {
+		fmt.Fprintf(os.Stderr, "DUMP at=%d seq=%d frozenSeq=%d stSeq=%d journal=%d frozenJournal=%d hasFrozen=%v mem=%d frozen=%d next=%d%s\n", at, st.Seq, st.FrozenSeq, st.StSeqNum, st.JournalNum, st.FrozenJournal, st.HasFrozen, len(st.Mem), len(st.Frozen), st.NextFileNum, seqRange(st.Mem, st.Frozen))
 	}
 	ic := leveldb.VerifIComparer(r.Cmp)
 	type span struct {
@@ -993,7 +1091,15 @@ func (r *Runner) checkStructure(at int) {
 			}
 			for lvl := range per {
 				if x, ok := per[lvl][u]; ok && q <= x.max {
-					r.fail("structure:buffer-order", fmt.Sprintf("op %d: user key %x: buffer (frozen=%v) holds seq %d, level %d holds seq %d", at, u, frozen, q, lvl, x.max), at)
+					detail := fmt.Sprintf(" [db seq %d, frozenSeq %d, manifest seq %d, journal %d frozen journal %d, %d mem / %d frozen entries%s; tables with that key:", st.Seq, st.FrozenSeq, st.StSeqNum, st.JournalNum, st.FrozenJournal, len(st.Mem), len(st.Frozen), seqRange(st.Mem, st.Frozen))
+					for _, sp := range all {
+						for _, te := range sp.es {
+							if string(ukeyOf(te.IKey)) == u {
+								detail += fmt.Sprintf(" L%d#%d:seq%d", sp.level, sp.t.Num, seqOf(te.IKey))
+							}
+						}
+					}
+					r.fail("structure:buffer-order", fmt.Sprintf("op %d: user key %x: buffer (frozen=%v) holds seq %d, level %d holds seq %d", at, u, frozen, q, lvl, x.max)+detail+"]", at)
 					return false
 				}
 			}
